@@ -147,6 +147,7 @@ func FuzzC11Call(f *testing.F) {
 	f.Add(byte(22), byte(0), byte(0), ^uint64(0), []byte{0xea, 0xf2, 0xe5, 0xe1, 0xe2})
 	f.Fuzz(func(t *testing.T, fn, callerSel, rcvSel byte, gas uint64, b []byte) {
 		e := NewEngine(spec)
+		e.Apply(Op{Kind: "epoch", Epoch: spec.ActivationEpoch})
 		for _, op := range c18Script(spec) {
 			e.Apply(op)
 			for _, msg := range e.M.pendingMsgs() {
